@@ -28,8 +28,12 @@ def build(ctx):
     return None
 
 
-def run_prog(d, progtext, tag="p", timeout=600):
-    """Run one program file through implementation and model. Returns (verdict_lines, trace_text, err)."""
+def run_prog(d, progtext, tag="p", timeout=600, subcmd="memrun", extra="", chunk=0):
+    """Run one program file through implementation and model. Returns (verdict_lines, trace_text, err).
+    subcmd/extra: harness subcommand and trailing arguments (`<harness_ft> <subcmd> <prog> <out> <dir> <extra>`),
+    e.g. subcmd="memx", extra="handle"; chunk > 0 runs the cases in harness processes of at most
+    `chunk` cases each (one huge virtual-clock process slows down: pending timers keep every case's
+    Manager alive).  A check selects its runner with run_family(..., runner=functools.partial(run_prog, ...))."""
     prog = d / (tag + ".prog")
     out = d / (tag + ".trace")
     ver = d / (tag + ".verdict")
@@ -37,15 +41,31 @@ def run_prog(d, progtext, tag="p", timeout=600):
     for f in (out, ver):
         if f.exists():
             f.unlink()
-    rc, log = lib.sh("%s memrun %s %s %s" % (lib.BUILD / FT, prog, out, d), cwd=d, timeout=timeout,
-                     extra_env={"GOMAXPROCS": "1"})
-    if rc != 0 or not out.exists():
-        # the harness died (a fatal runtime error cannot be recovered) or hung: find the case
-        prog_case = ""
-        pf = d / (tag + ".trace.progress")
-        if pf.exists():
-            prog_case = pf.read_text().strip()
-        return None, out.read_text() if out.exists() else "", "harness rc=%s case=%s log=%s" % (rc, prog_case, log[-1500:])
+    if chunk and chunk > 0:
+        cases = split_cases(progtext)
+        parts = ["".join("\n".join(c) + "\n" for c in cases[i:i + chunk]) for i in range(0, max(len(cases), 1), chunk)]
+    else:
+        parts = [progtext]
+    traces = []
+    for part in parts:
+        cprog, cout = prog, out
+        if len(parts) > 1:
+            cprog, cout = d / (tag + ".chunk.prog"), d / (tag + ".chunk.trace")
+            cprog.write_text(part)
+            if cout.exists():
+                cout.unlink()
+        rc, log = lib.sh("%s %s %s %s %s %s" % (lib.BUILD / FT, subcmd, cprog, cout, d, extra), cwd=d, timeout=timeout,
+                         extra_env={"GOMAXPROCS": "1"})
+        traces.append(cout.read_text() if cout.exists() else "")
+        if rc != 0 or not cout.exists():
+            # the harness died (a fatal runtime error cannot be recovered) or hung: find the case
+            prog_case = ""
+            pf = cout.parent / (cout.name + ".progress")
+            if pf.exists():
+                prog_case = (pf.read_text().split("\n") or [""])[0].strip()
+            return None, "".join(traces), "harness rc=%s case=%s log=%s" % (rc, prog_case, log[-1500:])
+    if len(parts) > 1:
+        out.write_text("".join(traces))
     rc, log = lib.sh("%s mem %s %s" % (lib.BUILD / "modelrun", out, ver), cwd=d, timeout=timeout)
     if rc != 0 or not ver.exists():
         return None, out.read_text(), "modelrun rc=%s log=%s" % (rc, log[-1500:])
@@ -75,11 +95,13 @@ def mismatching(verdict):
     return res
 
 
-def shrink(d, lines, budget=250):
+def shrink(d, lines, budget=250, run=None):
     """Delta-debug one case (list of lines CASE.., C.., DUMP, END): drop lines while the
     implementation still disagrees with the model."""
+    run = run or run_prog
+
     def bad(ls):
-        v, _, err = run_prog(d, "\n".join(ls) + "\n", tag="shrink", timeout=120)
+        v, _, err = run(d, "\n".join(ls) + "\n", tag="shrink", timeout=120)
         if err:
             return True   # harness died on it: still a failing input
         return bool(mismatching(v))
@@ -142,9 +164,12 @@ def stats(trace_text):
 
 
 def run_family(ctx, pid, make_cases, rule, extra_tb=None, assumptions=None, corpus_glob=None,
-               extra_cov=None, post=None):
+               extra_cov=None, post=None, runner=None):
     """make_cases(tier, seed) -> list of gen.Case.  post(ctx, d) -> optional (broken, cov) hook
-    for property-specific extra correspondence (run after the main differential run)."""
+    for property-specific extra correspondence (run after the main differential run).
+    runner: callable with run_prog's signature (default run_prog = harness subcommand memrun), e.g.
+    functools.partial(run_prog, subcmd="memx", extra="handle", chunk=2000)."""
+    run = runner or run_prog
     cov, broken = lib.proof_gate(ctx, extra_tb=(extra_tb or []) + [
         "modelled, not verified: Go maps/slices (as association lists / lists), strconv (re-stated in Base/GoInt.v), the goroutine timers of SetTTL (the model purges by deadline; tie = virtual-clock differential run)",
         "ml/memrun.ml (trace parsing, canonical printing of replies and dumps): trusted glue; memdb/verif_dump.go (hook H1, build tag verif): trusted to print the keyspace faithfully",
@@ -154,7 +179,7 @@ def run_family(ctx, pid, make_cases, rule, extra_tb=None, assumptions=None, corp
     if ctx.replay:
         r = json.load(open(ctx.replay))
         text = "\n".join(r.get("case_lines", [])) + "\n"
-        v, trace, err = run_prog(d, text, tag="replay")
+        v, trace, err = run(d, text, tag="replay")
         print(trace)
         print("\n".join(v or []), err or "")
         return 1 if (err or mismatching(v)) else 0
@@ -169,7 +194,7 @@ def run_family(ctx, pid, make_cases, rule, extra_tb=None, assumptions=None, corp
         cases = make_cases(ctx.tier, ctx.seed)
         texts.append(("generated", "".join(c.text() for c in cases)))
         for tag, text in texts:
-            v, trace, err = run_prog(d, text, tag="main", timeout=1500)
+            v, trace, err = run(d, text, tag="main", timeout=1500)
             st = stats(trace)
             nsteps += st[0]
             cmds.update(st[1])
@@ -195,8 +220,8 @@ def run_family(ctx, pid, make_cases, rule, extra_tb=None, assumptions=None, corp
     if failing:
         case = failing.get("case")
         if case:
-            small = shrink(d, case)
-            v, trace, err = run_prog(d, "\n".join(small) + "\n", tag="final", timeout=120)
+            small = shrink(d, case, run=run)
+            v, trace, err = run(d, "\n".join(small) + "\n", tag="final", timeout=120)
             failing.update(case_lines=small, readable=decode_case(small), trace=trace.splitlines()[-40:],
                            verdict=(v or [err])[:5])
             failing.pop("case")
